@@ -302,6 +302,20 @@ RunResult run_qsl(const Program &p, bool trace) {
                     expect.erase(expect.begin() + epos);
                     note_pos(idx, n0);
                     D->mutations++;
+                    // list: the iterator now stands on the following element; it may be removed right away, without a 'next' in between
+                    while (D->kind == K_LIST && idx + 1 < n0 && r.below(100) < 35) {
+                        void *v2 = m_list_itr_get_data((m_list_itr_t *)itr);
+                        long id2 = is_cell(v2) ? cell_id(v2) : -1;
+                        if (id2 != start[idx + 1]) VIOL("C12", "C12:itr-order", "list iterator stands on %ld after removing position %zu, container order is [%s]", id2, idx, seq_str(start).c_str());
+                        int rc2 = m_list_itr_remove((m_list_itr_t *)itr);
+                        if (rc2 != 0) VIOL("C12", "C12:itr-remove-failed", "list iterator remove (second in a row) rc=%d", rc2);
+                        idx++;
+                        visited.push_back(id2);
+                        removed.push_back(id2);
+                        expect.erase(expect.begin() + epos);
+                        note_pos(idx, n0);
+                        sim::R->ctr.probe("list_itr_consecutive_removals");
+                    }
                 } else if (!any_insert && a < rm_pct + set_pct) {
                     long nv = D->next_val++;
                     int rc = D->kind == K_QUEUE ? m_queue_itr_set_data((m_queue_itr_t *)itr, cell(nv)) : D->kind == K_STACK ? m_stack_itr_set_data((m_stack_itr_t *)itr, cell(nv)) : m_list_itr_set_data((m_list_itr_t *)itr, cell(nv));
